@@ -122,16 +122,13 @@ class Case:
 
 
 def terminated_rows(vec):
-    k = vec["kind"]
-    out = []
-    for i, rw in enumerate(vec["rows"]):
-        if k == "mrq":
-            if any(seq(rw["x"]["ts"])):
-                out.append(i)
-        elif k in DISC + CONT + ("td7",):
-            if rw["x"]["term"] == 1:
-                out.append(i)
-    return out
+    """Rows (0-based) whose bootstrap part is irrelevant according to the specification (emitted set Irrelevant)."""
+    return sorted(int(i) - 1 for i in vec["irr"])
+
+
+def masked_steps(vec):
+    """(row, step) pairs (0-based) after the first termination of a row, from the specification (encoder loss)."""
+    return sorted((int(c[0]) - 1, int(c[1]) - 1) for c in vec["irr"])
 
 
 # ----------------------------------------------------------------- realisation: TLC's network outputs -> stub parameters
@@ -456,17 +453,14 @@ def perturbed(case: Case, rng) -> Case | None:
              arrays={k: np.array(v, copy=True) for k, v in case.arrays.items()}, groups=case.groups, boot=case.boot, aux=case.aux, variant="perturb")
     touched = []
     if case.kind == "enc":
-        mask = seq(case.vec["alts"][0]["mask"])
-        for i in range(case.n):
-            for t, mk in enumerate(seq(mask[i])):
-                if mk == 0:
-                    for ref, idx in case.boot[i][t]:
-                        arr = _ref_array(c, ref)
-                        arr[idx] = arr[idx] + rng.normal(size=np.shape(arr[idx])).astype(np.float32) + np.float32(0.5)
-                    c.arrays["r"][i, t] = np.clip(c.arrays["r"][i, t], BINS[0] + 0.05, BINS[-1] - 0.05)
-                    c.arrays["term"][i, t] = 1 - c.arrays["term"][i, t]
-                    c.arrays["nobs"][i, t] = rng.normal(size=c.arrays["nobs"].shape[-1]).astype(np.float32)
-                    touched.append((i, t))
+        for i, t in masked_steps(case.vec):
+            for ref, idx in case.boot[i][t]:
+                arr = _ref_array(c, ref)
+                arr[idx] = arr[idx] + rng.normal(size=np.shape(arr[idx])).astype(np.float32) + np.float32(0.5)
+            c.arrays["r"][i, t] = np.clip(c.arrays["r"][i, t], BINS[0] + 0.05, BINS[-1] - 0.05)
+            c.arrays["term"][i, t] = 1 - c.arrays["term"][i, t]
+            c.arrays["nobs"][i, t] = rng.normal(size=c.arrays["nobs"].shape[-1]).astype(np.float32)
+            touched.append((i, t))
     elif case.kind == "sale":
         return None
     else:
@@ -946,7 +940,7 @@ def base_term(case):
 # ----------------------------------------------------------------- driver
 def group_key(c: Case):
     k = c.kind
-    shape = tuple((nm, np.shape(v)) for nm, v in sorted(c.arrays.items()))
+    shape = tuple((nm, np.shape(v)) for nm, v in sorted(c.arrays.items())) + tuple((mi, kk, np.shape(v)) for mi, lv in enumerate(c.leaves) for kk, v in sorted(lv.items()))
     extra = (c.aux.get("h"), c.aux.get("normtgt")) if k == "enc" else ()
     if k == "td7":
         extra = (fl(c.vec["par"]["gamma"]), fl(c.vec["par"]["delta"]))
@@ -1034,23 +1028,27 @@ def canon(vec):
     return json.dumps([vec["kind"], vec["n"], vec["par"], vec["rows"]], sort_keys=True)
 
 
-def spec_canaries():
-    """Named deviations of the spec must be refuted by TLC."""
+def spec_canaries(pool):
+    """Named deviations of the spec must be refuted by TLC (submitted to the pool; checked by finish_canaries)."""
     todo = [
         ("noterm", {"td3", "ddqn", "mrq"}, "TerminatedNoBootstrap"),
         ("broadcast", {"ddpg"}, "PerSample"),
         ("nosg", {"dqn"}, "GradSupport"),
         ("encbroadcast", {"enc"}, "PerSample"),
+        ("encbroadcast", {"enc"}, "AfterTermIgnored"),
     ]
+    futs = []
     for dev, kinds, inv in todo:
         c = dict(EMIT=False, Kinds=kinds, NSet={2}, NA=2, H=2, LAT="small", DEV=dev)
-        r = tlc.run("Losses", tlc.cfg_text(constants=c, invariants=[inv]), workers=2, tag=f"losses-{dev}")
+        futs.append((dev, inv, pool.submit(tlc.run, "Losses", tlc.cfg_text(constants=c, invariants=[inv]), workers=1, tag=f"losses-{dev}")))
+    return futs
+
+
+def finish_canaries(futs):
+    for dev, inv, f in futs:
+        r = f.result()
         if r.violated != inv:
             raise tlc.MachineryError(f"canary: deviation '{dev}' is not refuted by {inv} (got {r.violated})")
-    c = dict(EMIT=False, Kinds={"enc"}, NSet={2}, NA=2, H=2, LAT="small", DEV="encbroadcast")
-    r = tlc.run("Losses", tlc.cfg_text(constants=c, invariants=["AfterTermIgnored"]), workers=2, tag="losses-encb2")
-    if r.violated != "AfterTermIgnored":
-        raise tlc.MachineryError("canary: broadcast deviation of the encoder done-loss is not refuted by AfterTermIgnored")
 
 
 def binding_canary(rep, vectors):
@@ -1094,42 +1092,62 @@ def new_stats():
 
 
 def run(rep):
+    import os
     import time
+    from concurrent.futures import ThreadPoolExecutor
 
     quick = rep.tier == "quick"
     t0 = time.time()
     tm = {}
     tlc.sany("Losses")
-    spec_canaries()
-    tm["canaries"] = round(time.time() - t0, 1)
-    workers = 4 if quick else 16
-    # 1. properties on the model, exhaustive over the small lattice
-    c = dict(EMIT=False, Kinds=set(ALL_KINDS), NSet={1, 2}, NA=2, H=2, LAT="small", DEV="")
-    r = tlc.run("Losses", tlc.cfg_text(constants=c, invariants=INVS), workers=workers, coverage=False, tag="losses-inv", timeout=1500)
-    rep.add_tlc(r, "Losses small lattice N in {1,2}: invariants")
-    if not r.ok:
-        rep.violation(f"spec:Losses:{r.violated}", f"design-level violation of {r.violated}", r.error_trace)
-    tm["invariants"] = round(time.time() - t0, 1)
-    # 2. vectors: the same lattice exhaustively, then seeded random walks over the full lattice
-    vectors = []
-    c["EMIT"] = True
-    g = tlc.run("Losses", tlc.cfg_text(constants=c), workers=1, tag="losses-gen", timeout=1500)
-    rep.add_tlc(g, "Losses small lattice: generation")
-    vectors += g.emitted
+    workers = int(os.environ.get("VERIF_TLC_WORKERS", "16"))
+    base = dict(EMIT=False, Kinds=set(ALL_KINDS), NSet={1, 2}, NA=2, H=2, LAT="small", DEV="")
     sims = [
-        dict(NSet={2, 4}, NA=3, H=2, LAT="full", num=1200 if quick else 6000),
-        dict(NSet={1, 3}, NA=2, H=3 if not quick else 2, LAT="full" if quick else "small", num=400 if quick else 3000),
+        dict(NSet={2, 4}, NA=3, H=2, LAT="full", num=800 if quick else 6000),
+        dict(NSet={1, 3}, NA=2, H=2 if quick else 3, LAT="full" if quick else "small", num=300 if quick else 3000),
     ]
     if not quick:
         sims += [dict(NSet={1, 2, 3, 4}, NA=2, H=2, LAT="full", num=6000), dict(NSet={2, 4}, NA=3, H=1, LAT="full", num=1500)]
+    # all TLC runs are independent processes: run them side by side
+    with ThreadPoolExecutor(max_workers=4 + len(sims)) as pool:
+        can = spec_canaries(pool)
+        # 1. properties on the model, exhaustive over the small lattice
+        f_inv = pool.submit(tlc.run, "Losses", tlc.cfg_text(constants=base, invariants=INVS), workers=workers, tag="losses-inv", timeout=1500)
+        # 2. vectors: the same lattice exhaustively, and seeded random walks over the full lattice (invariants checked there too)
+        f_gen = pool.submit(tlc.run, "Losses", tlc.cfg_text(constants=dict(base, EMIT=True)), workers=1, tag="losses-gen", timeout=1500)
+        f_inv3 = None
+        if not quick:  # batches of three rows for the kinds whose small row lattice allows it (the others: random walks below)
+            c3 = dict(base, NSet={3}, Kinds={"ddpg", "td3", "lap", "sac", "td7", "enc"})
+            f_inv3 = pool.submit(tlc.run, "Losses", tlc.cfg_text(constants=c3, invariants=INVS), workers=workers, tag="losses-inv3", timeout=3000)
+        f_sim = []
+        for si, s in enumerate(sims):
+            cc = dict(EMIT=True, Kinds=set(ALL_KINDS), NSet=s["NSet"], NA=s["NA"], H=s["H"], LAT=s["LAT"], DEV="")
+            f_sim.append(pool.submit(tlc.run, "Losses", tlc.cfg_text(constants=cc, invariants=INVS), workers=1, simulate=f"num={s['num']}", depth=12,
+                                     seed=rep.seed * 7 + si + 1, tag=f"losses-sim{si}", timeout=1500))
+        _lazy()  # import jax / flax while TLC is running
+        from rl_blox.blox import losses as _warm  # noqa: F401
+
+        finish_canaries(can)
+        r = f_inv.result()
+        g = f_gen.result()
+        sim_res = [f.result() for f in f_sim]
+    rep.add_tlc(r, "Losses small lattice N in {1,2}: invariants")
+    if not r.ok:
+        rep.violation(f"spec:Losses:{r.violated}", f"design-level violation of {r.violated}", r.error_trace)
+    rep.add_tlc(g, "Losses small lattice: generation")
+    if f_inv3 is not None:
+        r3 = f_inv3.result()
+        rep.add_tlc(r3, "Losses small lattice N=3 (ddpg td3 lap sac td7 enc): invariants")
+        if not r3.ok:
+            rep.violation(f"spec:Losses:{r3.violated}", f"design-level violation of {r3.violated} (N=3)", r3.error_trace)
+    vectors = list(g.emitted)
     sim_total = 0
-    for si, s in enumerate(sims):
-        cc = dict(EMIT=True, Kinds=set(ALL_KINDS), NSet=s["NSet"], NA=s["NA"], H=s["H"], LAT=s["LAT"], DEV="")
-        sr = tlc.run("Losses", tlc.cfg_text(constants=cc, invariants=INVS), workers=1, simulate=f"num={s['num']}", depth=12, seed=rep.seed * 7 + si + 1, tag=f"losses-sim{si}", timeout=1500)
+    for sr in sim_res:
         if sr.violated:
             rep.violation(f"spec:Losses:{sr.violated}", f"design-level violation of {sr.violated} (random walk)", sr.error_trace)
         sim_total += len(sr.emitted)
         vectors += sr.emitted
+    tm["tlc"] = round(time.time() - t0, 1)
     seen = set()
     uniq = []
     for v in vectors:
@@ -1137,7 +1155,6 @@ def run(rep):
         if k not in seen:
             seen.add(k)
             uniq.append(v)
-    tm["generation"] = round(time.time() - t0, 1)
     stats = new_stats()
     total = evaluate(rep, uniq, stats, variants_every=4 if quick else 3, td7_cap=400 if quick else 3000)
     tm["replay"] = round(time.time() - t0, 1)
